@@ -188,6 +188,9 @@ func (c *Ctx) Finish() int {
 		return a.Detail < b.Detail
 	})
 	dir := filepath.Join(VerifDir, "replays")
+	if d := os.Getenv("VERIF_REPLAY_DIR"); d != "" {
+		dir = d
+	}
 	os.MkdirAll(dir, 0o755)
 	// group by (class, key): one replay file per group, the first (smallest detail) of each
 	type group struct {
@@ -288,6 +291,9 @@ func (c *Ctx) WriteEvidence(level string, cov map[string]interface{}, assumption
 		return err
 	}
 	dir := filepath.Join(VerifDir, "evidence")
+	if d := os.Getenv("VERIF_EVIDENCE_DIR"); d != "" {
+		dir = d // mutation-testing runs must not overwrite the committed evidence
+	}
 	if err := os.MkdirAll(dir, 0o755); err != nil {
 		return err
 	}
